@@ -71,7 +71,26 @@ class IdealContext:
         """a message the *peer* sealed for us"""
         self.sealed.append(dict(header=header, sealed=sealed, trailer=trailer, sig=sig, plain=plain))
 
+    iov = True  # a context whose provider has no IOV support (e.g. gss-ntlmssp) refuses wrap_iov / unwrap_iov
+
+    def iov_available(self):
+        return self.iov
+
+    def wrap_winrm(self, data):
+        """the non-IOV sealing primitive: only the data is protected, nothing else is signed"""
+        self.n += 1
+        sealed = self.c.blob_of_len(f"{self.tag}sealed{self.n}", V.blen(data))
+        sig = self.c.bytes(f"{self.tag}wsig{self.n}", self.sig_size)
+        self.wrap_calls.append(dict(bufs=[(BT.data, data)], encrypt=True, sealed=sealed, sig=sig, winrm=True))
+        return types.SimpleNamespace(header=sig, data=sealed, padding_length=0)
+
+    def unwrap_winrm(self, header, data):
+        self.unwrap_calls += 1
+        raise SealError("signature verification failed")
+
     def wrap_iov(self, iov, encrypt=True, qop=None):
+        if not self.iov:
+            raise spnego.exceptions.FeatureMissingError(spnego.exceptions.NegotiateOptions.wrapping_iov) if hasattr(spnego.exceptions, "NegotiateOptions") else NotImplementedError("IOV is not available")
         bufs = [_norm(b) for b in iov]
         self.n += 1
         data = [d for t, d in bufs if t == BT.data]
@@ -90,6 +109,8 @@ class IdealContext:
         return types.SimpleNamespace(buffers=tuple(out), encrypted=encrypt)
 
     def unwrap_iov(self, iov):
+        if not self.iov:
+            raise NotImplementedError("IOV is not available")
         self.unwrap_calls += 1
         bufs = [_norm(b) for b in iov]
         data = [d for t, d in bufs if t == BT.data]
